@@ -77,7 +77,7 @@ _GRAY_STEPS_256 = [
     0x6C,
     0x76,
     0x80,
-    0x84,
+    0x8A,
     0x94,
     0x9E,
     0xA8,
